@@ -676,12 +676,58 @@ def mc_impl(tier, seed):
                                     design_level_L2_states=sum(r['distinct'] for r in rs)))
 
 
+# ------------------------------------------------------------------------------------------------ C14
+def c14_growth(tier, seed):
+    """Design level: the derived theorem of C14 under the weakest admissible growth policy (spec/Growth.tla);
+    thorough tier: longer append runs on the real code (millions of appends)."""
+    import jobs as Jb
+    maxn = 3000 if tier == 'quick' else 30000
+    wd = os.path.join(P.CACHE, 'growth', P.sha('growth', maxn, P.file_sha(os.path.join(P.SPEC, 'Growth.tla'))))
+    okf = os.path.join(wd, 'ok')
+    with P.Lock(wd):
+        if not os.path.exists(okf):
+            os.makedirs(wd, exist_ok=True)
+            cfg = os.path.join(wd, 'G.cfg')
+            open(cfg, 'w').write('SPECIFICATION Spec\nCONSTANTS\n  MaxN = %d\n  Caps = {0, 1, 2, 3, 8, 13}\nCHECK_DEADLOCK FALSE\n' % maxn)
+            rc, out = P.java_tlc(['-workers', '1', '-metadir', os.path.join(wd, 'md'), '-config', cfg, os.path.join(P.SPEC, 'Growth.tla')], timeout=3600, xmx='4g')
+            shutil.rmtree(os.path.join(wd, 'md'), ignore_errors=True)
+            if 'No error has been found' not in out or '"GROWTH"' not in out:
+                raise RuntimeError('Growth theorem check failed:\n' + out[-2000:])
+            open(okf, 'w').write('ok')
+    extra = []
+    if tier != 'quick':
+        d = os.path.join(P.CACHE, 'regress')
+        os.makedirs(d, exist_ok=True)
+        text = ''.join('S L%d 0 | %s\n' % (i, s_) for i, s_ in enumerate(
+            ['ctor_def A - 0 ; push_n A - 1000000', 'ctor_def A - 0 ; push_n A - 4000000', 'ctor_def B - 0 ; push_n B - 2000000',
+             'ctor_n A - 0 3 ; push_n A - 1500000 ; shrink A - ; push_n A - 10']))
+        path = os.path.join(d, 'longrun_%s.txt' % P.sha(text))
+        open(path, 'w').write(text)
+        for conf in (dict(NA=0, NB=8, ELEM=0), dict(NA=1, NB=3, ELEM=5), dict(NA=2, NB=0, ELEM=6, ALLOC=0)):
+            extra.append(Jb.run_job(None, conf, 0, None, seed, None, False, path, 'long append runs up to 4e6 (%s)' % conf))
+    res = dict(lines=0, ops=0, restarts=0, skipped=0, sample=[], sigs={}, nlines={}, violations=[], stims=0, stims_total=0, mc=None,
+               drv='Growth', drvconf=None, fmode=0,
+               label='design level (Growth.tla): allocations <= 2*ceil(log2 n)+2 and relocations <= 3n+3 for n <= %d under the weakest policy' % maxn,
+               coverage_extra=dict(growth_theorem_checked_up_to_n=maxn))
+    for r in extra:
+        for k in ('lines', 'ops', 'skipped'):
+            res[k] += r[k]
+        for p, sg in r['sigs'].items():
+            res['sigs'].setdefault(p, [])
+            res['sigs'][p] = sorted(set(res['sigs'][p]) | set(sg))
+        for p, n in r['nlines'].items():
+            res['nlines'][p] = res['nlines'].get(p, 0) + n
+        res['violations'] += r['violations']
+    return res
+
+
 EXTRA = {
     'C01': [oracle_selftest],
     'C03': [mc_impl],
     'C05': [mc_impl],
     'C06': [mc_impl],
     'C09': [mc_impl],
+    'C14': [c14_growth],
     'C19': [c19],
     'C18': [c18_table],
     'C13': [c13_facts],
